@@ -225,3 +225,32 @@ Proof.
   intro lines. rewrite leaf_meta_is_run_calls. apply leaf_meta_calls_ok. apply meta_names_nodup.
 Qed.
 Print Assumptions leaf_meta_from_chart_lines_on_current_source.
+
+(** The property's theorems about whole [Song] bodies, stated of the function as translated from the current source. *)
+From Coq Require Import Permutation.
+From CP Require Import Spec.RefRegex Spec.C07 Spec.C10 Properties.C10.
+Lemma C10_ok_now : cfg_ok_C10 cfg = true.
+Proof. vm_compute. reflexivity. Qed.
+
+Corollary C10_required_on_translated_source : forall lines,
+  (forall f, In f (meta_fields cfg) -> mf_pascal f = of_string "Resolution" -> find (accepts cfg f) lines = None) ->
+  leaf_meta_from_chart_lines cfg lines = Err EMissingRequiredField.
+Proof. intros lines H. rewrite leaf_meta_from_chart_lines_on_current_source. exact (C10_required cfg C10_ok_now lines H). Qed.
+
+Corollary C10_perm_on_translated_source : forall lines lines',
+  one_line_per_field cfg lines -> Permutation lines lines' ->
+  leaf_meta_from_chart_lines cfg lines = leaf_meta_from_chart_lines cfg lines'.
+Proof. intros lines lines' H P. rewrite !leaf_meta_from_chart_lines_on_current_source. exact (C10_perm cfg lines lines' H P). Qed.
+
+Corollary C10_defaults_on_translated_source : forall lines m,
+  leaf_meta_from_chart_lines cfg lines = Ok m ->
+  forall n p k r dv, In (n, p, k, r, dv) doc_table -> r = false ->
+    (forall f, In f (meta_fields cfg) -> mf_pascal f = of_string p -> find (accepts cfg f) lines = None) ->
+    assoc (of_string n) m = Some dv.
+Proof. intros lines m H. rewrite leaf_meta_from_chart_lines_on_current_source in H. exact (C10_defaults cfg C10_ok_now lines m H). Qed.
+
+Corollary C10_shape_on_translated_source : forall lines m,
+  leaf_meta_from_chart_lines cfg lines = Ok m ->
+  map fst m = map (fun d => of_string (fst (fst (fst (fst d))))) doc_table.
+Proof. intros lines m H. rewrite leaf_meta_from_chart_lines_on_current_source in H. exact (C10_shape cfg C10_ok_now lines m H). Qed.
+Print Assumptions C10_perm_on_translated_source.
